@@ -136,7 +136,8 @@ def gen_thr_input(rng, i, boundary_heavy=False):
         pos, neg = [float(np.float32(x)) for x in pos], [float(np.float32(x)) for x in neg]
         f4dt = True
     inp = {"stream": stream, "pos": pos, "neg": neg, "ep": ep, "en": en, "sc": sc, "ec": ec,
-           "metric": metric, "alias": rng.random() < 0.3, "scalar": rng.random() < 0.3, "intdt": intdt, "f4dt": f4dt}
+           "metric": metric, "alias": rng.random() < 0.3, "scalar": rng.random() < 0.3, "intdt": intdt, "f4dt": f4dt,
+           "prior": rng.random() < 0.25}
     n_rel = {"tpr": len(pos), "fnr": len(pos), "tnr": len(neg), "fpr": len(neg)}.get(metric, len(pos) + len(neg))
     n_all = {"tpr": len(pos) + ep, "fnr": len(pos) + ep, "tnr": len(neg) + en, "fpr": len(neg) + en}.get(
         metric, len(pos) + len(neg) + ep + en)
@@ -168,6 +169,11 @@ def build_thr(pid: str, inp, clauses) -> Case:
     metric = inp["metric"]
     name = "threshold_at_" + (gen.ALIASES[metric] if inp["alias"] else metric)
     fn = getattr(s, name)
+    if inp.get("prior"):
+        # earlier queries on the SAME object: threshold setting is a query, its result must not depend on them
+        for nm_, args_ in (("threshold_at_topr", (0.5,)), ("threshold_at_tonr", (0.25,)), ("threshold_at_fnr", (0.75,)),
+                           ("threshold_at_fpr", (0.125,)), ("cm", (np.array([0.0, 1.0]),)), ("tpr", (0.5,))):
+            common.call(getattr(s, nm_), *args_)
     pre = []
     ex = exact_case(inp)
     scale = max([abs(x) for x in pos + neg] + [1.0]) if not inp.get("big") else 1.0  # integer-valued scores: exact
@@ -219,6 +225,8 @@ def build_thr(pid: str, inp, clauses) -> Case:
         tags.append("float32-dtype")
     if inp.get("big"):
         tags.append("population>=2**19")
+    if inp.get("prior"):
+        tags.append("prior-calls")
     if len(set(pos)) < len(pos) or len(set(neg)) < len(neg) or set(pos) & set(neg):
         tags.append("ties")
     if any(r <= 0 or r >= 1 for r in rs):
